@@ -136,7 +136,7 @@ def main(tier):
             jun_on_pin = any(tuple(jn['p']) in pinpos or tuple(jn['rp']) in pinpos for jn in x['juncs'])
             if t in ('route-with-fewer-than-two-points', 'route-does-not-join-its-attachments') and jun_on_pin:
                 key = 'hyperedge:junction-placed-on-terminal-pin:degenerate-route'
-            elif (sc['opts'] & 4) and t in ('connector-attached-to-deleted-junction', 'not-connected', 'not-a-tree', 'junction-is-a-leaf', 'terminals-changed', 'reported-new-object-not-live', 'route-does-not-join-its-attachments', 'connector-end-unattached'):
+            elif (sc['opts'] & 4) and t in ('connector-attached-to-deleted-junction', 'not-connected', 'not-a-tree', 'junction-is-a-leaf', 'terminals-changed', 'reported-new-object-not-live', 'route-does-not-join-its-attachments', 'connector-end-unattached', 'terminal-used-twice'):
                 key = 'hyperedge:improver-adding-deleting-junctions:tree-broken'
             if key == 'hyperedge:route-does-not-join-its-attachments' and sc['follow'] == 1:
                 key = 'hyperedge:after-terminal-shape-move:route-does-not-reach-pin'
